@@ -42,7 +42,7 @@ func genCase(t *rapid.T, flavour string, maxSteps int) *caseSpec {
 		nShort = 2
 	}
 	s0 := rapid.IntRange(0, len(p.shorts)-1).Draw(t, "short0")
-	stride := rapid.SampledFrom([]int{1, 5, 7}).Draw(t, "stride") // all coprime to len(shorts)=18? 5,7 are; 1 trivially
+	stride := rapid.SampledFrom([]int{1, 5, 7}).Draw(t, "stride") // all coprime to len(shorts) = 18, so the picks are distinct
 	for i := 0; i < nShort; i++ {
 		ws = append(ws, p.shorts[(s0+i*stride)%len(p.shorts)])
 	}
